@@ -1,3 +1,54 @@
+(* C08  Linear scoring is the exact first-order log-likelihood ratio around the UBM. *)
 From Coq Require Import Reals List.
-Theorem placeholder : True. Proof. exact I. Qed.
-Print Assumptions placeholder.
+From Coquelicot Require Import Coquelicot.
+From BLE Require Import Num.InstR Model.LinScore Model.GMM Proofs.RLemmas Proofs.GMMLik Proofs.GMMStats Proofs.LinScoreR.
+Import ListNotations LR.
+Open Scope R_scope.
+
+Theorem C08_score_formula (eps : R) (C D : nat) (model umu uvar off : list (list R)) (s : tstat) :
+  shape_ok C D model -> shape_ok C D umu -> shape_ok C D uvar -> shape_ok C D off -> tstat_ok C D s ->
+  score1 eps false model umu uvar off s = score_spec C D model umu uvar off s.
+Proof. exact (score_formula eps C D model umu uvar off s). Qed.
+Print Assumptions C08_score_formula.
+
+Theorem C08_frame_normalisation (eps : R) (model umu uvar off : list (list R)) (s : tstat) :
+  (eps < Rabs (ts_t s) -> score1 eps true model umu uvar off s = score1 eps false model umu uvar off s / ts_t s)
+  /\ (Rabs (ts_t s) <= eps -> score1 eps true model umu uvar off s = 0).
+Proof. exact (conj (score_normalised eps model umu uvar off s) (score_zero_frames eps model umu uvar off s)). Qed.
+Print Assumptions C08_frame_normalisation.
+
+Theorem C08_ubm_scores_zero (eps : R) (norm : bool) (umu uvar off : list (list R)) (s : tstat) :
+  score1 eps norm umu umu uvar off s = 0.
+Proof. exact (score_ubm_zero eps norm umu uvar off s). Qed.
+Print Assumptions C08_ubm_scores_zero.
+
+Theorem C08_linear_in_model_offset (eps lam : R) (norm : bool) (C D : nat) (model umu uvar off : list (list R)) (s : tstat) :
+  shape_ok C D model -> shape_ok C D umu -> shape_ok C D uvar -> shape_ok C D off -> tstat_ok C D s ->
+  score1 eps norm (along lam umu model) umu uvar off s = lam * score1 eps norm model umu uvar off s.
+Proof. exact (score_linear eps lam norm C D model umu uvar off s). Qed.
+Print Assumptions C08_linear_in_model_offset.
+
+Theorem C08_additive_over_statistics (eps : R) (C D : nat) (model umu uvar off : list (list R)) (s1 s2 : tstat) :
+  shape_ok C D model -> shape_ok C D umu -> shape_ok C D uvar -> shape_ok C D off -> tstat_ok C D s1 -> tstat_ok C D s2 ->
+  score1 eps false model umu uvar off (tadd s1 s2)
+  = score1 eps false model umu uvar off s1 + score1 eps false model umu uvar off s2.
+Proof. exact (score_additive eps C D model umu uvar off s1 s2). Qed.
+Print Assumptions C08_additive_over_statistics.
+
+Theorem C08_one_row_per_model_one_column_per_test (eps : R) (norm : bool) (models : list (list (list R))) (umu uvar : list (list R))
+        (stats : list tstat) (o : offsets) :
+  length (linear_scoring eps norm models umu uvar stats o) = length models
+  /\ List.Forall (fun row => length row = length stats) (linear_scoring eps norm models umu uvar stats o).
+Proof. exact (score_shape eps norm models umu uvar stats o). Qed.
+Print Assumptions C08_one_row_per_model_one_column_per_test.
+
+(* the un-normalised score with zero channel offset IS the derivative at 0 of the data's UBM
+   log-likelihood as the UBM means are moved towards the model: any numbers of components, features, samples *)
+Theorem C08_score_is_derivative (eps : R) (nf : nat) (m : MR.gmm) (model : list (list R)) (X : list (list R)) :
+  wf_gmm nf m -> GMMStats.rows_ok nf X ->
+  length (MR.ws m) = length (MR.mus m) -> length (MR.ws m) = length (MR.vars m) ->
+  shape_ok (length (MR.mus m)) nf model ->
+  is_derive (fun e => rsum (map (MR.ll (shift_means e m model)) X)) 0
+            (score1 eps false model (MR.mus m) (MR.vars m) (V.mzero (length (MR.mus m)) nf) (tstat_of (MR.e_step nf m X))).
+Proof. exact (score_is_derivative eps nf m model X). Qed.
+Print Assumptions C08_score_is_derivative.
